@@ -1,11 +1,14 @@
 ---------------------------- MODULE Aggregators ----------------------------
 (* C07 - abstract specification (the oracle) of rare's aggregators.              *)
 (*                                                                                *)
-(* A sample is a byte string.  Count-style aggregators split it on NUL into       *)
-(* key parts and an optional increment (Go strconv.ParseInt base 10 grammar):     *)
+(* A sample is a byte string.  Count-style aggregators split it on their          *)
+(* delimiter - NUL, except for the table, whose delimiter is a parameter of its   *)
+(* construction: any byte SEQUENCE of length >= 1, split at its leftmost          *)
+(* non-overlapping occurrences (AggSplit.tla) - into key parts and an optional    *)
+(* increment (Go strconv.ParseInt base 10 grammar):                               *)
 (*   histogram counter : key [NUL inc]                                            *)
 (*   sub-key counter   : key NUL sub-key [NUL inc]   (missing sub-key = "")       *)
-(*   table             : column [NUL row [NUL inc]]  (missing row = "")           *)
+(*   table             : column [d row [d inc]]      (missing row = "")           *)
 (* A missing increment counts 1, a non-integer increment is a parse error and     *)
 (* changes nothing else.  What an aggregator holds after a history h is given     *)
 (* twice: as an order-free *bag fold* (XFold(h): sums over index sets) and as a   *)
@@ -17,7 +20,7 @@
 (*                       law: variance invariant, everything else shifts).        *)
 (* Accessor calls are stuttering steps (AObserve): no read may change a later one.*)
 (*   accumulating group: left fold of accumulator expressions over the rows.      *)
-EXTENDS Bytes, Rat, TLC
+EXTENDS Bytes, Rat, AggSplit, TLC
 
 \* the exact arithmetic used below is sound (evaluated once at start-up)
 ASSUME RatLaws
@@ -40,17 +43,22 @@ Get0(f, k) == IF k \in DOMAIN f THEN f[k] ELSE 0
 EmptyFn == [x \in {} |-> 0]
 
 \* ------------------------------------------------------------------ decoding
-Parts(el) == SplitOn(el, NUL)
+\* the parts of a sample under the delimiter d (a byte sequence, Len(d) >= 1)
+PartsD(el, d) == Fields(el, d)
+DNUL == <<NUL>>
+Parts(el) == PartsD(el, DNUL)
 \* nk key parts (missing ones are empty), then an optional increment
-Decode(el, nk) ==
-  LET p == Parts(el)
+DecodeD(el, nk, d) ==
+  LET p == PartsD(el, d)
       keys == [i \in 1..nk |-> IF i <= Len(p) THEN p[i] ELSE <<>>]
   IN IF Len(p) <= nk THEN [ok |-> TRUE, keys |-> keys, inc |-> 1]
      ELSE IF ParseIntOK(p[nk + 1]) THEN [ok |-> TRUE, keys |-> keys, inc |-> ParseIntVal(p[nk + 1])]
      ELSE [ok |-> FALSE, keys |-> keys, inc |-> 0]
+Decode(el, nk) == DecodeD(el, nk, DNUL)
 \* the specification's domain: increments of at most 9 digits (TLC integers are 32 bit)
-InDomain(el, nk) ==
-  LET p == Parts(el) IN Len(p) > nk /\ ParseIntOK(p[nk + 1]) => Len(p[nk + 1]) <= 10
+InDomainD(el, nk, d) ==
+  LET p == PartsD(el, d) IN Len(p) > nk /\ ParseIntOK(p[nk + 1]) => Len(p[nk + 1]) <= 10
+InDomain(el, nk) == InDomainD(el, nk, DNUL)
 
 \* ------------------------------------------------------ histogram counter
 \* state: [cnt : key -> Int, err : Nat]
@@ -78,8 +86,9 @@ GridAdd(s, a, b, inc) == [s EXCEPT !.cell = Upd(s.cell, <<a, b>>, Get0(s.cell, <
 SubStep(s, el) ==
   LET d == Decode(el, 2) IN
   IF d.ok THEN GridAdd(s, d.keys[1], d.keys[2], d.inc) ELSE [s EXCEPT !.err = s.err + 1]
-TblStep(s, el) ==
-  LET d == Decode(el, 2) IN   \* first part is the COLUMN, second the row
+\* the table splits on the delimiter dl it was constructed with
+TblStepD(s, el, dl) ==
+  LET d == DecodeD(el, 2, dl) IN   \* first part is the COLUMN, second the row
   IF d.ok THEN GridAdd(s, d.keys[2], d.keys[1], d.inc) ELSE [s EXCEPT !.err = s.err + 1]
 
 GridAs(s) == {p[1] : p \in DOMAIN s.cell}           \* rows / keys
@@ -93,15 +102,18 @@ GridMinMax(s) ==
   LET V == {GridAt(s, a, b) : a \in GridAs(s), b \in GridBs(s)}
   IN IF V = {} THEN <<0, 0>> ELSE <<MinOf(V), MaxOf(V)>>
 
-GridFold(h, swap) ==
-  LET D  == [i \in 1..Len(h) |-> Decode(h[i], 2)]
+GridFold(h, swap, dl) ==
+  LET D  == [i \in 1..Len(h) |-> DecodeD(h[i], 2, dl)]
       OK == {i \in 1..Len(h) : D[i].ok}
       P(i) == IF swap THEN <<D[i].keys[2], D[i].keys[1]>> ELSE <<D[i].keys[1], D[i].keys[2]>>
       I  == [i \in 1..Len(h) |-> D[i].inc]
   IN [cell |-> [p \in {P(i) : i \in OK} |-> SumF({i \in OK : P(i) = p}, I)],
       err |-> Len(h) - Cardinality(OK), dirty |-> FALSE]
-SubFold(h) == GridFold(h, FALSE)
-TblFold(h) == GridFold(h, TRUE)
+SubFold(h) == GridFold(h, FALSE, DNUL)
+TblFoldD(h, dl) == GridFold(h, TRUE, dl)
+\* the default construction: NewTable("\x00")
+TblStep(s, el) == TblStepD(s, el, DNUL)
+TblFold(h) == TblFoldD(h, DNUL)
 
 \* trim predicates: records [k, c, r, v]  (c = column bytes, r = row bytes, v = integer)
 PredHolds(p, col, row, val) ==
@@ -390,7 +402,8 @@ avars == <<ctr, sub, tbl, num, acc>>
 AInit == ctr = CtrInit /\ sub = GridInit /\ tbl = GridInit /\ num = NumInit /\ acc = AccInit
 ASampleCtr(el) == ctr' = CtrStep(ctr, el) /\ UNCHANGED <<sub, tbl, num, acc>>
 ASampleSub(el) == sub' = SubStep(sub, el) /\ UNCHANGED <<ctr, tbl, num, acc>>
-ASampleTbl(el) == tbl' = TblStep(tbl, el) /\ UNCHANGED <<ctr, sub, num, acc>>
+ASampleTblD(el, dl) == tbl' = TblStepD(tbl, el, dl) /\ UNCHANGED <<ctr, sub, num, acc>>
+ASampleTbl(el) == ASampleTblD(el, DNUL)
 ATrimTbl(p)    == tbl' = TblTrim(tbl, p) /\ UNCHANGED <<ctr, sub, num, acc>>
 ASampleNumB(el, B) == num' = NumStepB(num, el, B) /\ UNCHANGED <<ctr, sub, tbl, acc>>
 ASampleNum(el) == ASampleNumB(el, BZero)
@@ -401,21 +414,25 @@ ASampleAcc(el) == acc' = AccStep(AccCfg, acc, el) /\ UNCHANGED <<ctr, sub, tbl, 
 \* (no memoised value may survive a mutator).  The implementation-shaped layer and the bindings
 \* make the step explicit and interleave it with Sample / Trim in every order.
 AObserve == UNCHANGED avars
-ANext ==
-  \/ \E el \in Elems : ASampleCtr(el) \/ ASampleSub(el) \/ ASampleTbl(el) \/ ASampleNum(el) \/ ASampleAcc(el)
+\* dl: the delimiter the table was constructed with - fixed for the life of the instance
+ANextD(dl) ==
+  \/ \E el \in Elems : ASampleCtr(el) \/ ASampleSub(el) \/ ASampleTblD(el, dl) \/ ASampleNum(el) \/ ASampleAcc(el)
   \/ \E p \in Preds : ATrimTbl(p)
   \/ AObserve
-ASpec == AInit /\ [][ANext]_avars
+ASpecD(dl) == AInit /\ [][ANextD(dl)]_avars
+ANext == ANextD(DNUL)
+ASpec == ASpecD(DNUL)
 
 \* ---- laws of the abstract machine (state invariants; TLC, B3) ------------------
 \* sample order does not matter for count-style aggregators: any two samples commute
-CommuteAt(B) ==
+CommuteAtD(B, dl) ==
   LET all0 == ctr = CtrInit /\ sub = GridInit /\ tbl = GridInit /\ num = NumInit IN
   \A e1 \in Elems, e2 \in Elems : BytesLess(e1, e2) =>      \* unordered pairs
     /\ (all0 \/ ctr # CtrInit) => CtrStep(CtrStep(ctr, e1), e2) = CtrStep(CtrStep(ctr, e2), e1)
     /\ (all0 \/ sub # GridInit) => SubStep(SubStep(sub, e1), e2) = SubStep(SubStep(sub, e2), e1)
-    /\ (all0 \/ tbl # GridInit) => TblStep(TblStep(tbl, e1), e2) = TblStep(TblStep(tbl, e2), e1)
+    /\ (all0 \/ tbl # GridInit) => TblStepD(TblStepD(tbl, e1, dl), e2, dl) = TblStepD(TblStepD(tbl, e2, dl), e1, dl)
     /\ (all0 \/ num # NumInit) => NumStepB(NumStepB(num, e1, B), e2, B) = NumStepB(NumStepB(num, e2, B), e1, B)
+CommuteAt(B) == CommuteAtD(B, DNUL)
 Commute == CommuteAt(BZero)
 \* totals are the sums of their cells
 TotalsOK ==
